@@ -16,6 +16,12 @@ package controllers
 //@ declare nextRV(rv string) string
 //@ declare statusPatchFails(rv string) bool
 //@ declare statusWriterOf(c ref) ref
+// statusWrites(): number of BindRequest status writes issued so far (successful or not).
+//@ ghost statusWrites() int
+// snapshot of what the reconciler last read from the store (written by the assumed contract of Client.Get)
+//@ ghost gotPhase() string
+//@ ghost gotDeleted() bool
+//@ ghost gotPodNode() string
 //@ declare mergeBase(p ref) ref
 //@ declare isMergePatch(p ref) bool
 //@ define asBR(o ref) *schedulingv1alpha2.BindRequest = unbox(o, "*schedulingv1alpha2.BindRequest")
@@ -38,7 +44,8 @@ package controllers
 //@ func sigs.k8s.io/controller-runtime/pkg/client.SubResourceWriter.Patch
 //@   props C12 C11
 //@   requires obj != nil && patch != nil
-//@   modifies asBR(obj).ResourceVersion
+//@   modifies asBR(obj).ResourceVersion, statusWrites()
+//@   ensures statusWrites() == old(statusWrites()) + ite(typeis(obj, "*schedulingv1alpha2.BindRequest"), 1, 0)
 //@   ensures typeis(obj, "*schedulingv1alpha2.BindRequest") && isMergePatch(patch) ==> (result != nil) == statusPatchFails(old(asBR(obj).ResourceVersion))
 //@   ensures result != nil ==> asBR(obj).ResourceVersion == old(asBR(obj).ResourceVersion)
 //@   ensures typeis(obj, "*schedulingv1alpha2.BindRequest") && isMergePatch(patch) && result == nil ==> asBR(obj).ResourceVersion == nextRV(old(asBR(obj).ResourceVersion))
@@ -58,7 +65,7 @@ package controllers
 //@   requires r != nil && r.Client != nil && bindRequest != nil
 //@   requires synced(bindRequest)     // the object was read from the store (Reconcile: Client.Get)
 //@   requires bindRequest.Status.FailedAttempts >= 0
-//@   modifies bindRequest.Status.Phase, bindRequest.Status.Reason, bindRequest.Status.FailedAttempts, bindRequest.ResourceVersion
+//@   modifies bindRequest.Status.Phase, bindRequest.Status.Reason, bindRequest.Status.FailedAttempts, bindRequest.ResourceVersion, statusWrites()
 //@   ensures [retry-counter-persisted] err != nil && bindRequest.Spec.BackoffLimit != nil && *bindRequest.Spec.BackoffLimit > old(bindRequest.Status.FailedAttempts) ==> statusPatchFails(old(bindRequest.ResourceVersion)) || storedAttempts(bindRequest.ResourceVersion) == old(bindRequest.Status.FailedAttempts) + 1
 // the error is handed back to controller-runtime (=> requeue) exactly when this call had a status change to
 // persist; a request whose stored status already says Failed with no retry left returns nil: it is terminal and
@@ -73,6 +80,7 @@ package controllers
 // so IsFailed() holds after at most BackoffLimit persisted failing reconciles (the induction over reconciles is not mechanised).
 //@   ensures [failed-phase-persisted] err != nil ==> statusPatchFails(old(bindRequest.ResourceVersion)) || storedPhase(bindRequest.ResourceVersion) == "Failed"
 //@   ensures [succeeded-phase-persisted] err == nil ==> statusPatchFails(old(bindRequest.ResourceVersion)) || storedPhase(bindRequest.ResourceVersion) == "Succeeded"
+//@   ensures [one-write-iff-status-changed] statusWrites() == old(statusWrites()) + ite(bindRequest.Status.Phase != old(bindRequest.Status.Phase) || bindRequest.Status.FailedAttempts != old(bindRequest.Status.FailedAttempts), 1, 0)
 //@   ensures [attempts-never-decrease] storedAttempts(bindRequest.ResourceVersion) >= old(bindRequest.Status.FailedAttempts)
 //@   ensures [no-error-invented] err == nil ==> result1 == nil
 //@   ensures [retry-requeued] err != nil && bindRequest.Spec.BackoffLimit != nil && *bindRequest.Spec.BackoffLimit > old(bindRequest.Status.FailedAttempts) ==> result0.RequeueAfter >= 1000000000
@@ -98,12 +106,89 @@ package controllers
 //@ func sigs.k8s.io/controller-runtime/pkg/client.Client.Get
 //@   props C11
 //@   requires obj != nil
-//@   modifies fields(asBR(obj)), fields(asV1Pod(obj)), fields(asNode(obj))
+//@   modifies fields(asBR(obj)), fields(asV1Pod(obj)), fields(asNode(obj)), gotPhase(), gotDeleted(), gotPodNode()
+//@   ensures result == nil && typeis(obj, "*schedulingv1alpha2.BindRequest") ==> synced(asBR(obj)) && asBR(obj).Status.FailedAttempts >= 0
+//@   ensures result == nil && typeis(obj, "*schedulingv1alpha2.BindRequest") ==> gotPhase() == asBR(obj).Status.Phase && gotDeleted() == (asBR(obj).DeletionTimestamp != nil)
+//@   ensures !(result == nil && typeis(obj, "*schedulingv1alpha2.BindRequest")) ==> gotPhase() == old(gotPhase()) && gotDeleted() == old(gotDeleted())
+//@   ensures result == nil && typeis(obj, "*v1.Pod") ==> gotPodNode() == asV1Pod(obj).Spec.NodeName
+//@   ensures !(result == nil && typeis(obj, "*v1.Pod")) ==> gotPodNode() == old(gotPodNode())
+//@   ensures result == nil && typeis(obj, "*v1.Node") ==> asNode(obj).Name == key.Name
+//@   ensures result == nil && typeis(obj, "*v1.Pod") ==> asV1Pod(obj).Name == key.Name && asV1Pod(obj).Namespace == key.Namespace
 //@ end
 
+//@ func sigs.k8s.io/controller-runtime/pkg/client.Client.Delete
+//@   props C11
+//@   requires obj != nil
+//@   pure
+//@ end
+
+//@ func sigs.k8s.io/controller-runtime/pkg/client.ObjectKeyFromObject
+//@   props C11
+//@   pure
+//@   ensures typeis(obj, "*v1.Node") ==> result.Name == asNode(obj).Name
+//@   ensures typeis(obj, "*v1.Pod") ==> result.Name == asV1Pod(obj).Name && result.Namespace == asV1Pod(obj).Namespace
+//@ end
+
+//@ func sigs.k8s.io/controller-runtime/pkg/client.IgnoreNotFound
+//@   props C11
+//@   pure
+//@   ensures err == nil ==> result == nil
+//@   ensures result == nil || result == err
+//@ end
+
+// event + pod condition patch: json.Marshal, record.EventRecorder and the vendored podutil.UpdatePodCondition are
+// outside the subset; it only touches the in-memory pod and the pod's status sub-resource.
+//@ func (*BindRequestReconciler).updatePodCondition
+//@   props C11
+//@   trusted
+//@   note json.Marshal / record.EventRecorder / k8s.io/kubernetes podutil.UpdatePodCondition: outside the subset; assumed to write only the pod object
+//@   requires r != nil && bindRequest != nil && pod != nil
+//@   modifies pod.Status, pod.ResourceVersion
+//@ end
+
+// C11: "A pod is never bound twice or to another node, a request that already Succeeded or whose pod is already
+// bound is a no-op"; mechanism "Reconcile: Bind, on error Rollback, deferred UpdateStatus".
 //@ func (*BindRequestReconciler).Reconcile
 //@   props C11
 //@   requires r != nil && r.Client != nil && r.binder != nil
 //@   modifies *
 //@   ensures [never-bound-twice] binding.bindAttempts() <= old(binding.bindAttempts()) + 1
+//@   ensures [no-bind-when-succeeded-deleted-or-already-bound] binding.bindAttempts() > old(binding.bindAttempts()) ==> gotPhase() != "Succeeded" && !gotDeleted() && gotPodNode() == ""
+//@   ensures [succeeded-or-deleted-is-noop] statusWrites() > old(statusWrites()) || binding.rollbacks() > old(binding.rollbacks()) ==> gotPhase() != "Succeeded" && !gotDeleted()
+//@   ensures [bound-to-the-selected-node-only] binding.bindAttempts() > old(binding.bindAttempts()) ==> pod != nil && binding.bindNodeOf(pod) == bindRequest.Spec.SelectedNode && pod.Name == bindRequest.Spec.PodName && pod.Namespace == bindRequest.Namespace
+//@   ensures [rollback-only-after-bind] binding.rollbacks() <= old(binding.rollbacks()) + 1 && (binding.rollbacks() > old(binding.rollbacks()) ==> binding.bindAttempts() > old(binding.bindAttempts()))
+//@   ensures [reported-bind-failure-was-rolled-back] err != nil && binding.bindAttempts() > old(binding.bindAttempts()) ==> binding.rollbacks() == old(binding.rollbacks()) + 1
+//@   ensures [at-most-one-status-write] statusWrites() <= old(statusWrites()) + 1
+//@ end
+
+// C17 (mechanism "pod delete/completion and BindRequest delete handlers call SyncForGpuGroup"): the handler asks for a
+// sync of EVERY group that resources.GetGpuGroups reports for the pod, whether or not earlier syncs failed.
+//@ import rr "github.com/NVIDIA/KAI-scheduler/pkg/binder/binding/resourcereservation"
+//@ func (*PodReconciler).syncReservationIfNeeded
+//@   props C17
+//@   requires r != nil && r.ResourceReservation != nil
+//@   requires typeis(object, "*corev1.Pod") ==> asPod(object) != nil
+//@   modifies family(rr.gone(nil)), family(rr.syncRequested(""))
+//@   loop 1
+//@     invariant 0 - 1 <= rangeindex && rangeindex < len(gpuGroups)
+//@     invariant forall i int :: 0 <= i && i <= rangeindex ==> rr.syncRequested(gpuGroups[i])
+//@     invariant forall g string :: old(rr.syncRequested(g)) ==> rr.syncRequested(g)
+//@     invariant forall g string :: rr.syncRequested(g) && !old(rr.syncRequested(g)) ==> (exists i int :: 0 <= i && i <= rangeindex && gpuGroups[i] == g)
+//@     decreases len(gpuGroups) - rangeindex
+//@   ensures [every-group-of-the-pod-synced] typeis(object, "*corev1.Pod") ==> (forall i int :: 0 <= i && i < len(gpuGroups) ==> rr.syncRequested(gpuGroups[i]))
+//@   ensures [only-groups-of-the-pod-synced] forall g string :: rr.syncRequested(g) && !old(rr.syncRequested(g)) ==> typeis(object, "*corev1.Pod") && (exists i int :: 0 <= i && i < len(gpuGroups) && gpuGroups[i] == g)
+//@ end
+
+// BindRequest deleted: every selected GPU group of a shared-GPU request is synced.
+//@ func (*BindRequestReconciler).deleteHandler
+//@   props C17
+//@   requires r != nil && r.resourceReservation != nil
+//@   requires typeis(event.Object, "*schedulingv1alpha2.BindRequest") ==> asBR(event.Object) != nil
+//@   modifies family(rr.gone(nil)), family(rr.syncRequested(""))
+//@   loop 1
+//@     invariant 0 - 1 <= rangeindex && rangeindex < len(bindRequest.Spec.SelectedGPUGroups)
+//@     invariant forall i int :: 0 <= i && i <= rangeindex ==> rr.syncRequested(bindRequest.Spec.SelectedGPUGroups[i])
+//@     invariant forall g string :: old(rr.syncRequested(g)) ==> rr.syncRequested(g)
+//@     decreases len(bindRequest.Spec.SelectedGPUGroups) - rangeindex
+//@   ensures [every-selected-group-synced] typeis(event.Object, "*schedulingv1alpha2.BindRequest") && asBR(event.Object).Spec.ReceivedResourceType == "Fraction" ==> (forall i int :: 0 <= i && i < len(asBR(event.Object).Spec.SelectedGPUGroups) ==> rr.syncRequested(asBR(event.Object).Spec.SelectedGPUGroups[i]))
 //@ end
